@@ -247,7 +247,7 @@ def wireCompat (old new : Schema) : Bool :=
     | none => false) &&
   (typeOrder old).all (fun T => (findCons new T).isNone && (findCons old T).isNone &&
     (match typeCombs old T with
-     | [_] => (typeCombs new T).length ≤ 1
+     | [c] => (typeCombs new T).length ≤ 1 || !usedBareSomewhere old c
      | _ => true)) &&
   (funcCombs old).all (fun f => match findFunc new f.name with
     | some f' => combCompat f f'
